@@ -172,6 +172,22 @@ def run(ctx):
     r.check(len(sends) == 1 and sends[0].args and unparse(sends[0].args[0]) == dor.first_param(),
             "%s#resend-arg" % dor.qname, "retry does not send exactly the payload list it was handed",
             where(dor, dor.node), "acknowledged payloads are re-sent (duplicates) or failed ones are dropped")
+    # a retry that fails as a whole must be retried with the payloads of *that attempt*: the handler registered on
+    # the retry's Deferred gets its payload table from the retried list, not the original batch's table
+    total_arm = [x for x in ast.walk(hsr.node) if isinstance(x, ast.ListComp) and isinstance(x.generators[0].iter, ast.Call) and
+                 call_name(x.generators[0].iter) == "values"]
+    tbl = unparse(total_arm[0].generators[0].iter.func.value) if total_arm else None
+    rreg = [g for g in registrations(dor, prog) if g["cb"] is not None and unparse(g["cb"]) == "self." + hsr.name]
+    okr = bool(rreg) and tbl is not None
+    if okr:
+        a = rreg[0]["call"].args[1] if len(rreg[0]["call"].args) > 1 else None
+        srcs = [a] if a is not None and not isinstance(a, ast.Name) else [x.value for x in walk_body_shallow(dor.body) if isinstance(x, ast.Assign)
+                                                                         and a is not None and any(unparse(t) == a.id for t in x.targets)]
+        okr = a is not None and bool(srcs) and all(dor.first_param() in {n.id for n in ast.walk(s_) if isinstance(n, ast.Name)} for s_ in srcs)
+    r.check(okr, "%s#retry-table-of-this-attempt" % dor.qname,
+            "the response handler of a retry is given the payload table of the original batch (`%s`): if the retry fails as a whole, "
+            "every payload of the batch is retried, including those already acknowledged" % tbl, where(dor, dor.node),
+            "attempt 1: partition A acknowledged, B fails; retry of B fails with a client-side KafkaError; attempt 3 re-sends A: duplicates")
     # callLater(..., d.callback, [p for p, f in <failed list>]) and d.addCallback(_do_retry)
     cl = [c for c in calls_in(crp, "callLater")]
     call_sites = [c for c in calls_in(hsr, crp.name)]
@@ -308,6 +324,9 @@ MUTANTS = [
      "expect": "C09.R2"},
     {"id": "retry-everything", "file": "producer.py", "old": "d.callback, [p for p, f in failed_payloads])",
      "new": "d.callback, list(payloadsByTopicPart.values()))", "expect": "C09.R3"},
+    {"id": "retry-handler-gets-batch-table", "file": "producer.py",
+     "old": "            retried = {tp: p for tp, p in payloadsByTopicPart.items() if p in payloads}\n            d.addBoth(self._handle_send_response, retried, deferredsByTopicPart)",
+     "new": "            d.addBoth(self._handle_send_response, payloadsByTopicPart, deferredsByTopicPart)", "expect": "C09.R3", "note": "finding F13"},
     {"id": "handle-responses-escape", "file": "client.py",
      "old": "            except BrokerResponseError:\n                if fail_on_error:\n                    raise\n",
      "new": "", "expect": "C09.R4"},
@@ -315,9 +334,8 @@ MUTANTS = [
      "old": "                self.reset_topic_metadata(resp.topic)\n                if fail_on_error:\n                    raise",
      "new": "                self.reset_topic_metadata(resp.topic)\n                raise", "expect": "C09.R4"},
     {"id": "no-attempt-increment", "file": "producer.py",
-     "old": "            self._req_attempts += 1\n            # add our handlers\n            d.addBoth(self._handle_send_response, payloadsByTopicPart, deferredsByTopicPart)\n            return d\n\n        def _cancel_retry",
-     "new": "            # add our handlers\n            d.addBoth(self._handle_send_response, payloadsByTopicPart, deferredsByTopicPart)\n            return d\n\n        def _cancel_retry",
-     "expect": "C09.R5"},
+     "old": "            self._req_attempts += 1\n            # add our handlers. Only the payloads of this attempt",
+     "new": "            # add our handlers. Only the payloads of this attempt", "expect": "C09.R5"},
     {"id": "limit-off-by-one", "file": "producer.py", "old": "            if self._req_attempts >= self._max_attempts:\n                # No, no retries left",
      "new": "            if self._req_attempts > self._max_attempts:\n                # No, no retries left", "expect": "C09.R5"},
     {"id": "backoff-not-growing", "file": "producer.py",
